@@ -489,6 +489,10 @@ func sliceElements(v ssa.Value) (elems []ssa.Value, complete bool) {
 			}
 		case *ssa.Const:
 			// nil slice
+		case *ssa.Slice:
+			if !isFreshSlice(x) {
+				complete = false
+			}
 		case *ssa.Call:
 			if b, ok := x.Call.Value.(*ssa.Builtin); ok && b.Name() == "append" {
 				walk(x.Call.Args[0])
